@@ -533,6 +533,25 @@ def failing_then_ordinary(ctx, st, lc, P):
                     one_case(ctx, st, lc, P, form, ['directed-same-name'], 'str', {}, None, ['directed'], other=prev)
                     prev = (form, {})
                     ctx.count('same_name_other_offset')
+    # one tzinfos mapping object whose entries the caller edits between calls (and a callable whose answers change):
+    # every call reads the mapping as it is at that call
+    import datetime as D
+    from dateutil import tz
+    for kind in ('dict', 'callable'):
+        table = {'BRST': -7200}
+        arg = table if kind == 'dict' else (lambda name, off: table.get(name))
+        for value, want in ((-7200, -7200), (-10800, -10800), (tz.tzoffset('Q', 60), 60), ('EST5EDT,M3.2.0,M11.1.0', -18000), (3600, 3600), (-7200, -7200)):
+            table['BRST'] = value
+            for text in ('2012-01-19 17:21:00 BRST', '17:21 BRST'):
+                ctx.ev()
+                ctx.count('mutated_tzinfos_calls')
+                try:
+                    got = P.parse(text, tzinfos=arg, default=D.datetime(2012, 1, 19)).utcoffset()
+                except Exception as e:
+                    got = '%s: %s' % (type(e).__name__, e)
+                if got != D.timedelta(seconds=want):
+                    ctx.violation('nondeterministic-or-state-leak', {'workload': 'mutated-tzinfos', 'text': text, 'tzinfos': kind, 'entry': repr(value)},
+                                  'the tzinfos entry is %r at this call, the result has offset %r (an earlier entry was %r)' % (value, got, 'see sequence'))
     ordinary = ['2003-09-25 10:00 +03:00', 'Thu, 25 Sep 2003 10:49:41 -0300', '2003-09-25T10:49:41.5-03:30', '10:00 UTC+3', 'Sep 25 2003 10:00 BRST-3']
     for bad in failing:
         for good in ordinary:
